@@ -1104,9 +1104,9 @@ def cases(tier, rng, extended=False):
         # these requests take milliseconds, a short watchdog keeps a broken build from stalling the whole check
         if c.timeout is None:
             if c.op.startswith("snf_") or c.op in ("im_snf", "im_snf_new", "im_perm_sign", "im_crt", "im_crt_sparse"):
-                c.timeout = 3.0
+                c.timeout = 8.0
             elif c.op in ("im_echelon", "im_detp", "im_lattice_index1"):
-                c.timeout = 5.0
+                c.timeout = 10.0
         yield c
 
 
